@@ -204,9 +204,9 @@ PROPS = {
         trusted=EXEC_TRUST,
     ),
     "C03": dict(
-        suites=["exec-engines"], oracle=engine_oracle(["jit"]), level="proof", model_is_spec=True,
+        suites=["exec-engines", "x86step"], oracle=engine_oracle(["jit"]), level="proof", model_is_spec=True,
         nontrivial=lambda line, impl: impl.startswith("ok"),
-        rule="suite exec-engines on the x86-64 JIT (generated code runs in forked children): a third of the C01 operation matrix (every opcode x register pairs x boundary operands, upper halves set before 32-bit "
+        rule="suite x86step (validation of the trusted machine model, not of rbpf: ~3,500 single instructions of every form the JIT emits - both widths, all registers, the three displacement encodings, boundary shift counts, arbitrary input flags - executed by the processor from a stub that installs and stores the whole register file, the condition flags and a scratch region, and by X86.step; all 16 registers, ZF/SF/CF/OF where the model defines them, memory and jump decisions compared) + suite exec-engines on the x86-64 JIT (generated code runs in forked children): a third of the C01 operation matrix (every opcode x register pairs x boundary operands, upper halves set before 32-bit "
              "operations and byte swaps), the memory-instruction matrix, call graphs, 12,000 random engine-safe programs on the four VM kinds with helpers, context probes, helper-contract programs, "
              "div/mod at instruction indexes 65534..131071. A case is compared only when the taint run of the model says it is inside the claim (no undefined register/stack byte, r1-r5 after a helper, "
              "or raw address reaches the result, a branch, a divisor or stored packet bytes) - the filtered fraction is in input_distribution. Oracle: same r0, packet and metadata bytes, helper log as the real "
@@ -526,6 +526,12 @@ def run_property(core, pid, tier, seed, replay):
     for i, line in enumerate(lines[:min(len(impl_lines), len(model_lines))]):
         impl, ikv = split_out(impl_lines[i])
         mod, mkv = split_out(model_lines[i])
+        if line.startswith("x86 ") and impl.startswith("ok ") and mod.startswith("ok "):
+            # one instruction on the processor vs the machine model: flags the model leaves undefined ('-') are not compared
+            fi = dict(x.split("=", 1) for x in impl.split()[1:] if "=" in x); fm = dict(x.split("=", 1) for x in mod.split()[1:] if "=" in x)
+            if len(fi.get("f", "")) == 4 and len(fm.get("f", "")) == 4:
+                fi["f"] = "".join(a if b != "-" else "-" for a, b in zip(fi["f"], fm["f"]))
+                impl = "ok r=%s f=%s t=%s m=%s" % (fi.get("r"), fi.get("f"), fi.get("t"), fi.get("m"))
         key = line.split()[0] + ":" + ("panic" if impl == "panic" else "err" if impl.startswith("err") else "bad-op" if impl == "bad-op" else "ok")
         dist[key] = dist.get(key, 0) + 1
         if cfg["nontrivial"](line, impl): nontriv.add(line)
@@ -540,6 +546,8 @@ def run_property(core, pid, tier, seed, replay):
         elif cfg.get("oracle"): why = cfg["oracle"](line, impl, mkv, ikv, mod)
         if why is None and impl != mod and cfg.get("model_is_spec"):
             why = "implementation gives '%s' where the proved model gives '%s'" % (impl, mod)
+        if why and line.startswith("x86 ") and not why.startswith("CORR:"):
+            why = "CORR:the processor and the x86-64 machine model (Model/X86.lean) disagree on one instruction: " + why
         if why and why.startswith("CORR:"):
             mism.append(dict(case=line, impl=impl_lines[i][:400], model=model_lines[i][:400], why=why[5:])); why = None
         if why:
